@@ -137,7 +137,7 @@ def main : IO Unit := jsonDriver fun j => do
       | .ok (.arr hs) => hs.toList.mapM jAtoms
       | _ => pure []
     let gen := generate toks kw
-    -- without a history the cache is empty and this is `routePath` / `routeUrl` (proved: `memo_empty_cache`)
+    -- equal to `routePath` / `routeUrl` for every history (proved: `element_cache_transparent`); computed through the cache model
     let cache := cacheAfter toks kw [] history
     let path := assembleMemo cache (quotedScript script) toks elems kw qs frag
     let url := assembleMemo cache (origin ++ quotedScript script) toks elems kw qs frag
